@@ -189,6 +189,45 @@ pub fn deviations(cfg: &AttackCfg, r: &RefRun, seed: u64) -> Vec<Dev> {
             }
         }
     }
+    // a liar that stays consistent with its own commitment: claimed bit (or MAC) of 'fashare ver'
+    // altered together with the commitment cm of the preceding 'fashare comm'
+    {
+        let vers: Vec<usize> = (0..ss.len()).filter(|i| ss[*i].phase == "fashare ver").collect();
+        for &vi in &vers {
+            let to = ss[vi].to;
+            let o = site_occ[vi];
+            let Some(ci) = (0..ss.len()).find(|i| ss[*i].phase == "fashare comm" && ss[*i].to == to && site_occ[*i] == o) else { continue };
+            let ver = &r.run.transcript[ss[vi].tr];
+            let comm = &r.run.transcript[ss[ci].tr];
+            let (Ok(V::Vec(mut vel, vl)), Ok(V::Vec(mut cel, cl))) = (schema::decode_msg("fashare ver", &ver.data), schema::decode_msg("fashare comm", &comm.data)) else { continue };
+            for (what, byte) in [("claimed-bit+cm", 0usize), ("mac+cm", 1 + rng.random_range(0..16 * (n - 1)))] {
+                let round = rng.random_range(0..vel.len().max(1));
+                let (mut vel2, mut cel2) = (vel.clone(), cel.clone());
+                let mut dm: Vec<u8> = match &vel2[round] {
+                    V::Vec(bs, _) => bs.iter().map(|b| if let V::U8(x) = b { *x } else { 0 }).collect(),
+                    _ => continue,
+                };
+                if byte >= dm.len() {
+                    continue;
+                }
+                dm[byte] ^= 1;
+                let h = blake3::hash(&dm);
+                vel2[round] = V::Vec(dm.iter().map(|b| V::U8(*b)).collect(), dm.len() as u64);
+                if let V::Tup(fields) = &mut cel2[round] {
+                    fields[2] = V::Arr(h.as_bytes().iter().map(|b| V::U8(*b)).collect());
+                }
+                let vbytes = schema::encode_msg(&V::Vec(vel2, vl));
+                let cbytes = schema::encode_msg(&V::Vec(cel2, cl));
+                push(
+                    format!("fashare ver#{}:{}:one-recipient", o.min(1), what),
+                    vec![(ci, MutSpec::Bytes(cbytes)), (vi, MutSpec::Bytes(vbytes))],
+                    vec![to],
+                    &mut out,
+                );
+            }
+            let _ = (&mut vel, &mut cel);
+        }
+    }
     // consistent lies through taps (live cheater that stays self-consistent)
     let others: Vec<usize> = (0..n).filter(|p| *p != c).collect();
     let tap = |site: &str, idx: Option<usize>, occ: Option<usize>| TapSpec {
